@@ -421,6 +421,11 @@ func (P *Program) verify(key string, tier string, timeoutS int) *FuncResult {
 	}
 	fn := P.byKey[key]
 	if fn == nil {
+		if P.isInterfaceMethod(key) {
+			// specification of an interface method: used at dynamic calls, nothing to verify here
+			res.Trusted = true
+			return res
+		}
 		res.Unsup = "no such function in /repo (contract is stale)"
 		return res
 	}
